@@ -28,8 +28,13 @@ NOTES = [
     "harness's derive() records; the evidence counts covered / outside cases (search.theorem_domain)",
     "pattern trees satisfy opLeaves / binOp3 (Add/Mult nodes are leaves, a BinOp has three children): true of "
     "every ast tree, checked by the driver on every request",
-    "CaitNode.find_matches(..., use_previous=True) (sub-matches inheriting the parent's bindings) is exercised on "
-    "the real code by the searches but not modelled",
+    "CaitNode.find_matches(..., use_previous=True) and cait_api.find_matches(..., use_previous=match) (searches "
+    "inheriting an earlier match's bindings) are exercised on the real code by the searches but not modelled; the "
+    "oracle for them is written from the property text: a sub-pattern derived from the bound subtree must be found "
+    "and bind every placeholder - a fresh one, a _var_ the inherited match bound to the same identifier, an __expr__ "
+    "NAME the inherited match had bound to something else - to what it replaced",
+    "report state between calls (the parse cache, cait['success']) is not modelled; the search asks the same "
+    "question again after CAIT was given an unparsable text on the same report",
 ]
 REFUTED = [{"statement": "Pedal.Cait.C11_GeneraliseAnyMatching_Full",
             "refuted_by": "#guard witness in PedalProofs/C11.lean (x[a+b:] / x[___:] on x[:a+b]), evaluated on the "
